@@ -57,7 +57,7 @@ def check(tier):
         for k, (mode, n, pairs) in enumerate(plan):
             pref = os.path.join(d, "fe%d" % k)
             cmd = [binary, "faultenum", "-mode", mode, "-n", str(n), "-seed", str(sd * 100 + k),
-                   "-out", pref]
+                   "-out", pref, "-shards", "16" if tier == "quick" else "48"]
             if pairs:
                 cmd.append("-pairs")
             rc, out = run(cmd, timeout=3000)
